@@ -3,6 +3,7 @@ INVARIANT TypeOK
 INVARIANT HeaderExact
 INVARIANT Aligned
 INVARIANT RoundTrip
+INVARIANT ForeignTransparent
 INVARIANT KeysAligned
 INVARIANT InStep
 INVARIANT BodyClear
